@@ -178,8 +178,12 @@ func runText(texts []c17.PkgText, kind string, out *kit.Out, store bool) {
 	if (strings.Contains(kind, "shape:ok-") || strings.Contains(kind, "container-right-family")) && !strings.Contains(kind, "+") {
 		tr = "TTextOk"
 	}
+	tags := obsTags(o, texts)
+	if tr == "TTextOk" && !o.Built {
+		tags = append(tags, controlTags(o, texts)...)
+	}
 	out.Emit(kit.Case{Coq: "(" + tr + " " + cObs(o) + ")", Key: kind + " " + o.Stage, Nontrivial: o.Stage != "parse", Desc: desc,
-		Tags: append(obsTags(o, texts), stream, "observed-only")})
+		Tags: append(tags, stream, "observed-only")})
 }
 
 func genText(name string) []c17.PkgText {
@@ -482,4 +486,24 @@ func unpositionedRefusal(line string) bool {
 		}
 	}
 	return false
+}
+
+// a well-formed control that did not compile: which finding of C17 (a well-formed schema refused) it is
+func controlTags(o TextObs, texts []c17.PkgText) []string {
+	tags := []string{"well-formed-control-refused"}
+	switch {
+	case strings.Contains(o.Err, "undefined field") && (sourceHas(texts, "UNIQUE")) && !sourceHas(texts, "GRANT"):
+		tags = append(tags, "C17-F34:unique-over-inherited-or-field-set-field-refused")
+	case strings.Contains(o.Err, "undefined field") && sourceHas(texts, "GRANT") && sourceHasRe(texts, fieldSetRe):
+		tags = append(tags, "C17-F35:grant-column-from-field-set-refused")
+	case strings.Contains(o.Err, "type not supported"):
+		tags = append(tags, "C17-F36:field-of-nested-table-declared-later-refused")
+	case strings.Contains(o.Err, "undefined table:") && sourceHas(texts, "DESCRIPTOR"):
+		tags = append(tags, "C17-F37:ref-to-table-declared-in-descriptor-refused")
+	case sourceHasRe(texts, importAliasRe) && (strings.Contains(o.Err, "does not define use of package") || strings.Contains(o.Err, "undefined workspace")):
+		tags = append(tags, "C17-F38:aliased-import-shadows-same-base-name")
+	case strings.Contains(o.Err, "undefined table kind") && sourceHas(texts, "PROJECTOR"):
+		tags = append(tags, "C17-F39:projector-on-inherited-nested-table-of-another-package-refused")
+	}
+	return tags
 }
